@@ -12,6 +12,8 @@ import Tranp.Lemmas.Procedure
 import Tranp.Lemmas.ProcedureNecessity
 import Tranp.Lemmas.ProcedureExpand
 import Tranp.Lemmas.PropKeys
+import Tranp.Lemmas.ProcedureHistory
+import Tranp.Generated.ProcedureState
 
 namespace Tranp.C09
 open Tranp Tranp.Procedure
@@ -374,5 +376,66 @@ example :
     AstPath.WfTags t ∧ AstPath.RelativefySafe [⟨['r'], none⟩] t ∧
       underQuiet (fun s => s == ['a']) t = false ∧ underQuiet (fun s => s == ['a']) (.token ['x'] ['v']) = true := by
   decide +kernel
+
+/-! ### histories: one `Procedure` instance over a sequence of calls -/
+
+/-- The result of `exec` (value or exception) is the same from every stack-of-stacks — for EVERY tree, well-formed or not,
+    and every handler table that does not catch nested failures. (Stale frames of failed runs, frames of enclosing runs:
+    none of it reaches the result.) -/
+theorem exec_result_independent_of_stacks {R : Type} (hs : Handlers R) (hH : hs.Good (fun _ => True)) (fuel : Nat)
+    (st1 st2 : St R) (root : PNode) : (exec hs fuel st1 root).2 = (exec hs fuel st2 root).2 :=
+  exec_indep hs hH fuel st1 st2 root
+
+/-- History independence of a `Procedure` instance. After ANY sequence of calls — `on` / `off` (also failing ones) /
+    `clear_handler` / `exec` on arbitrary trees, succeeding or raising — an `exec` answers exactly like a fresh instance
+    that has only seen the registrations: the instance state is the stack-of-stacks and the handler table
+    (`instance_state_is_modelled`), earlier `exec`s do not change the table, and the stacks do not matter. -/
+theorem exec_history_independent {R : Type} (fuel : Nat) (s : PState R) (cs : List (Call R)) (root : PNode)
+    (hH : (emitterAfter s.emitter cs).table.Good (fun _ => True)) :
+    (step fuel (steps fuel s cs) (.exec root)).2 = (step fuel ⟨[], emitterAfter s.emitter cs⟩ (.exec root)).2 := by
+  have he := steps_emitter fuel s cs
+  have hi := exec_indep (emitterAfter s.emitter cs).table hH fuel (steps fuel s cs).stacks [] root
+  simp only [step, he]
+  cases h1 : exec (emitterAfter s.emitter cs).table fuel (steps fuel s cs).stacks root with
+  | mk a1 x1 =>
+    cases h2 : exec (emitterAfter s.emitter cs).table fuel [] root with
+    | mk a2 x2 =>
+      rw [h1, h2] at hi
+      simp only at hi
+      subst hi
+      cases x1 <;> rfl
+
+/-- … and on a well-formed tree that answer is the reference result for the registered handlers, whatever happened before -/
+theorem exec_history_reference {R : Type} (fuel : Nat) (s : PState R) (cs : List (Call R)) (root : PNode) (hwf : WF root)
+    (hH : (emitterAfter s.emitter cs).table.Good WF) :
+    (exec (emitterAfter s.emitter cs).table fuel (steps fuel s cs).stacks root).2 =
+      denoteF (emitterAfter s.emitter cs).table fuel root :=
+  (final _ hH fuel root hwf _).1
+
+/-- non-vacuity: register, run a failing tree (stale frame), re-register, remove a handler, run again -/
+example :
+    let boom : Handler Nat := fun _ _ => .fail (.other ['V'])
+    let cs : List (Call Nat) := [.on "on_fallback".toList 1 sumH, .on ("on_".toList ++ ['l']) 2 boom, .exec good,
+      .off ("on_".toList ++ ['x']) 9, .off ("on_".toList ++ ['l']) 2, .on "on_fallback".toList 1 idH]
+    (steps 1 {} cs).stacks = [[]] ∧
+      (step 1 (steps 1 {} cs) (.exec good)).2 = (Out.value 6321 : Out Nat) ∧
+      (emitterAfter ([] : Emitter Nat) cs).map (fun e => (e.1, e.2.map (·.1))) = [("on_fallback".toList, [1])] := by
+  refine ⟨by rfl, by rfl, by rfl⟩
+
+open Tranp.Generated in
+/-- The state of a `Procedure` instance, as read from `procedure.py` on this run, is what the model carries: `__stacks`
+    (written by `__init__`, `exec`, `__result`, `__run_action`, `__stack_pop` = `exec`/`execImpl`/`processNode`/`popN`),
+    `__emitter` (`__init__`, `on`, `off`, `clear_handler` = `Call.on/off/clear`), `__verbose` (constructor only);
+    no class-level state; list lengths are re-read from the node at event time and the root is flattened on every exec
+    (nothing is remembered per node). A new attribute or another source is a translator error, not a proof. -/
+theorem instance_state_is_modelled :
+    ProcedureState.stateWriters =
+      [ ("__stacks".toList, ["__init__".toList, "exec".toList, "__result".toList, "__run_action".toList, "__stack_pop".toList]),
+        ("__verbose".toList, ["__init__".toList]),
+        ("__emitter".toList, ["__init__".toList, "on".toList, "off".toList, "clear_handler".toList]) ] ∧
+    ProcedureState.classState = [] ∧
+    ProcedureState.makeEventCount = .lenGetattrAtEventTime ∧
+    ProcedureState.execFlatten = .rootProceduralOnEveryExec := by
+  refine ⟨by decide, by decide, by decide, by decide⟩
 
 end Tranp.C09
